@@ -28,8 +28,8 @@ RULE = ("case kinds: sp = (batch of 2-6 library molecules with individual distor
         "non-trivial when at least one batch row was compared with a converged alone run of the same molecule; "
         "distinct by SHA-1 of the case")
 ASSUMPTIONS = ["float64 CPU, 1 thread", "scf_eps 1e-10 (SCF noise is 2-3 orders below the 1e-7 eV / 5e-6 eV/A bounds)",
-               "SP2 cells are judged with eps_eff = SP2 tolerance as clamped by the code (two independent SP2 "
-               "solutions, each within the C04 bound of the exact one)",
+               "SP2 is a deterministic per-row map: SP2 cells are judged with the same scf_eps-derived bounds as "
+               "diagonalisation cells, independent of the SP2 tolerance",
                "bitwise equality is demanded only between layouts that differ in padding coordinate values alone",
                "excited-state force comparison only when the active root is >= 0.05 eV from its neighbours"]
 REQUIRED_MONITORS = ["rows_compared", "padding_only_pairs", "swap_pairs", "cis_rows_compared", "md_rows_compared",
@@ -381,6 +381,22 @@ def setup_worker():
     w = MethodWrap(basics.Parser, "forward", hook)
     w.__enter__()
     _G["parser_wrap"] = w
+    # per-row SCF cycle counter: get_error is called once per cycle with the mask of the rows still iterating
+    _G["iters"] = None
+    orig_ge = getattr(scf_loop, "get_error", None)
+    if orig_ge is not None:
+        def ge(Pold, P, notconverged, *a, **k):
+            try:
+                it = _G.get("iters")
+                n = int(notconverged.shape[0])
+                if it is None or len(it) != n:
+                    it = np.zeros(n, dtype=np.int64)
+                _G["iters"] = it + notconverged.detach().cpu().numpy().astype(np.int64)
+            except Exception as exc:  # noqa: BLE001
+                _G["iters_monitor_error"] = repr(exc)
+            return orig_ge(Pold, P, notconverged, *a, **k)
+
+        scf_loop.get_error = ge
     # call counter on the finite-temperature density builder (evidence that the T_el cells really took that path)
     _G["fermi_q_calls"] = 0
     orig_fq = getattr(scf_loop, "Fermi_Q", None)
@@ -422,15 +438,15 @@ def _settings(case, excited=None, active=0):
     from vlib import run
 
     grad = case.get("grad", "autodiff")
-    return run.settings(case["method"], eps=EPS, converger=tuple(case.get("conv", (2,))), sp2=case.get("sp2"),
+    return run.settings(case["method"], eps=case.get("eps", EPS), converger=tuple(case.get("conv", (2,))), sp2=case.get("sp2"),
                         uhf=case.get("uhf", False), grad=grad, excited=excited, active_state=active)
 
 
 def _eps_eff(case):
-    sp2 = case.get("sp2")
-    e = EPS
-    if sp2:
-        e = max(e, min(max(float(sp2), 1e-7), 1e-3))
+    # SP2 is a deterministic per-row map of the Fock matrix (padding levels sit at the upper Gershgorin bound and stay
+    # empty), so alone-vs-batch agreement must NOT scale with the SP2 tolerance: SP2 cells get the same scf_eps-derived
+    # bounds as diagonalisation cells (main shows 5e-13 eV / 6e-9 eV/A / 4e-10 e at SP2 tolerances 1e-5..1e-9).
+    e = case.get("eps", EPS)
     conv = case.get("conv", [2])
     A = 1.0 / (1.0 - conv[1]) if conv[0] == 0 and len(conv) > 1 else 1.0
     return e * A
@@ -467,15 +483,22 @@ def _batch_arrays(mols, pad, padval, seed):
 def _run(S, C, sett, mols):
     from vlib import run
 
+    _G["iters"] = None
     if len(mols) == 1 and len(S) == 1:
-        return run.single_point(S, C, sett, charges=float(mols[0]["q"]), mult=float(mols[0]["mult"]))
-    return run.single_point(S, C, sett, charges=[float(m["q"]) for m in mols], mult=[float(m["mult"]) for m in mols])
+        out = run.single_point(S, C, sett, charges=float(mols[0]["q"]), mult=float(mols[0]["mult"]))
+    else:
+        out = run.single_point(S, C, sett, charges=[float(m["q"]) for m in mols], mult=[float(m["mult"]) for m in mols])
+    out["_iters"] = None if _G.get("iters") is None else _G["iters"].copy()      # SCF cycles per row (get_error wrapper)
+    return out
 
 
 def _alone(m, sett):
     from vlib import run
 
-    return run.single_point([m["Z"]], [m["X"].tolist()], sett, charges=float(m["q"]), mult=float(m["mult"]))
+    _G["iters"] = None
+    out = run.single_point([m["Z"]], [m["X"].tolist()], sett, charges=float(m["q"]), mult=float(m["mult"]))
+    out["_iters"] = None if _G.get("iters") is None else _G["iters"].copy()
+    return out
 
 
 def _flag(out, k):
@@ -988,8 +1011,8 @@ def _run_md(case):
         if drawn:
             # engine-drawn velocities differ between the two runs; T(s)/Ek(s) = 2/(n_dof k_B) is a constant of the molecule
             ra, rb = a["T"] / a["Ek"], b["T"] / b["Ek"]
-            dev = float(max(np.abs(ra / ra[0] - 1).max(), np.abs(rb / ra[0] - 1).max()))
-            t0 = float(max(abs(a["T"][0] / case["temp"] - 1), abs(b["T"][0] / case["temp"] - 1)))
+            dev = float(np.max(np.abs(np.concatenate([ra, rb]) / ra[0] - 1)))          # np.max propagates NaN
+            t0 = float(np.max(np.abs(np.array([a["T"][0], b["T"][0]]) / case["temp"] - 1)))
             acc.count("md_dof_ratio_rows")
             bad = {}
             if acc.upd("md_T_over_Ek_alone_vs_batch", dev, 1e-9):
@@ -1092,5 +1115,5 @@ def summarize(cases, results, report):
     mols = sorted({m["mol"] for c in cases for m in c.get("members", [])})
     return {"case_kinds": kinds, "sp_cases_with_all_permutations": nperm_exh, "library_molecules_used": mols,
             "tolerances": {"E": A_E, "F": A_F, "q": A_Q, "e_mo": A_EMO, "excitation": A_EXC, "md_x": TOL_MD_X,
-                           "sp2_cells": "max(a_abs, 2*K*eps_eff), K = 20/2e3/300/2e3 for E/F/q/e_mo, eps_eff = clamped SP2 tolerance",
+                           "sp2_cells": "same bounds as diagonalisation cells (independent of the SP2 tolerance)",
                            "sp2_loop_bound": SP2_BOUND}}
